@@ -4,7 +4,7 @@
     [wm_safe]: within an iteration, after Watermark(t) no element with timestamp <= t and no
     watermark <= t — whenever the component's inputs respect the same contract. *)
 From Noir Require Import Base.Elem Model.Start Proofs.StartSpec Corr.Canon.
-From Noir Require Corr.C17 Corr.C07 Corr.C12 Corr.C13 Corr.C16 Corr.C09.
+From Noir Require Corr.C17 Corr.C07 Corr.C12 Corr.C13 Corr.C16 Corr.C09 Corr.ZooCorr.
 From Noir Require Import Model.BinaryStart Corr.BinCorr.
 From Coq Require Import NArith.
 Open Scope Z_scope.
@@ -38,6 +38,7 @@ Definition prop_ok (c : case) : bool :=
       | C07.CKeyed n _ bs out => if senders_safe n bs then wm_safe (strip_fb out) else true
       | C07.CGlobalSum n bs out => if senders_safe n bs then wm_safe (strip_fb out) else true
       | C07.CRich _ input out => if wm_safe input then wm_safe (strip_fb out) else true
+      | C07.CAggJob _ _ _ _ _ => true
       end
   | KCount x => if wm_safe (strip_fb (C12.c_in x)) then wm_safe (strip_fb (C12.c_out x)) else true
   | KEvent x =>
@@ -50,6 +51,9 @@ Definition prop_ok (c : case) : bool :=
       | C16.CReorder input out => if wm_safe (strip_fb input) then wm_safe (strip_fb out) else true
       | C16.CSeq _ _ _ bs out => if senders_safe 1 bs then wm_safe (strip_fb out) else true
       | C16.CJob _ _ _ _ _ => true
+      | C16.CZoo ops input out =>
+          (* add_timestamps makes the contract the user's; every other chain must preserve it *)
+          if wm_safe (strip_fb input) && negb (ZooCorr.has_add_ts ops) then wm_safe (strip_fb out) else true
       end
   | KFan x =>
       match x with
